@@ -3,7 +3,8 @@
 # changes can be tried without touching /repo (which registered checks and evidence always use).
 #
 #   tools/lane.sh create <n>                      /tmp/lane<n>/{repo,verif}; cold-builds the harness there
-#   tools/lane.sh sync <n>                        re-copies /verif's harness sources into the lane (keeps build output)
+#   tools/lane.sh sync <n>                        re-copies /verif's harness sources into the lane (keeps build output);
+#                                                 REVERTS a patch applied by a running `sens`: never sync a busy lane
 #   tools/lane.sh sens <n> <patch> <seed> <id>..  apply patch in the lane's repo, run quick tiers, restore; one line per check
 #   tools/lane.sh run <n> <id> <tier> [seed]      run one check in the lane as it is
 #   tools/lane.sh destroy <n>
